@@ -138,7 +138,13 @@ def problem_recipe(draw, dims=(1, 2, 3, 4, 5), exact_only=False, families=None, 
 
 @st.composite
 def solver_params(draw, n, m, iters, cheap=True):
-    return {"r": draw(r_values), "eps": draw(eps_values(n, m, cheap)), "itersLimit": draw(iters)}
+    p = {"r": draw(r_values), "eps": draw(eps_values(n, m, cheap)), "itersLimit": draw(iters)}
+    how = draw(st.sampled_from(["ctor", "ctor", "ctor", "assign", "rebound", "assign+rebound"]))
+    if "assign" in how:
+        p["assign"] = True       # fields assigned after the SolverParameters object was built
+    if "rebound" in how:
+        p["rebound"] = True      # solver.evolvent.SetBounds(same box) after the Solver was built
+    return p
 
 
 @st.composite
@@ -154,11 +160,16 @@ def int_box_recipe(draw, dims=(2, 3, 4, 5), densities=(10,), families=None):
 
 
 @st.composite
-def start_points(draw, recipe):
-    """A start point inside the box (SolverParameters.startPoint), or None in most cases."""
+def start_points(draw, recipe, outside=False):
+    """A start point (SolverParameters.startPoint), or None in most cases; inside the box, or - with outside=True -
+    possibly beyond it in some coordinates (an unconstrained minimiser passed as a hint, a solution of a wider box)."""
     if draw(st.integers(0, 4)) > 0:
         return None
-    return [a + draw(unit01) * (b - a) for a, b in zip(recipe["lower"], recipe["upper"])]
+    u = [draw(unit01) for _ in recipe["lower"]]
+    if outside and draw(st.booleans()):
+        k = draw(st.integers(0, len(u) - 1))
+        u[k] = draw(st.sampled_from([-0.4, 1.6, -3.0, 1.0000001, 2.0]))
+    return [a + t * (b - a) for a, b, t in zip(recipe["lower"], recipe["upper"], u)]
 
 
 @st.composite
